@@ -315,9 +315,13 @@ def run(args):
         ("ret_optobj", "?{ ? }", "?ret_anyobj()", {"k": "opt", "some": ao}),
         ("ret_objobj", "{ o: { ? }, n: int }", "new { o: ret_anyobj(), n: 3 }", {"k": "obj", "fs": {"o": ao, "n": I(3)}}),
         ("ret_nolist", "[str]", "{ let l: [str] = []; l }", {"k": "list", "es": []}),
+        ("ret_fn", "fn(n: int) -> int", "twice", {"k": "other:value.ValueVMFunction"}),
+        ("ret_fnlit", "fn(n: int) -> int", "fn(n: int) -> int { n }", {"k": "other:value.ValueVMFunction"}),
+        ("ret_fnlist", "[fn(n: int) -> int]", "[twice]", {"k": "list", "es": [{"k": "other:value.ValueVMFunction"}]}),
+        ("ret_handle", "{ join: fn() -> int }", "spawn twice(2)", {"k": "obj", "fs": {"join": {"k": "other:value.ValueBuiltinFunction"}}}),
         ("ret_empty", "{ ? }", "\"{}\".parse_json() as { ? }", {"k": "anyobj", "fs": {}}),
     ]
-    rlib = "".join("fn %s() -> %s { println(\"ran\"); %s }\n" % (n, t, e) for n, t, e, _ in rets) + "fn main() { }\n"
+    rlib = "fn twice(n: int) -> int { n * 2 }\n" + "".join("fn %s() -> %s { println(\"ran\"); %s }\n" % (n, t, e) for n, t, e, _ in rets) + "fn main() { }\n"
 
     def strip(v):
         if isinstance(v, dict):
